@@ -5,6 +5,13 @@ from core import Corr, Violation, run_driver
 from extract import pyexpr
 
 ID = "C14"
+#: functions the hand-written model transcribes: their control skeleton (extract/shape.py) is regenerated into
+#: Gen/C14.lean and compared with the literal in Properties/C14.lean (`modelled_functions_have_the_transcribed_shape`)
+SHAPES = [
+    ("shapeMixinNgrams", "mlinsights/mlmodel/sklearn_text.py", "NGramsMixin._word_ngrams"),
+    ("shapeCountNgrams", "mlinsights/mlmodel/sklearn_text.py", "TraceableCountVectorizer._word_ngrams"),
+    ("shapeTfidfNgrams", "mlinsights/mlmodel/sklearn_text.py", "TraceableTfidfVectorizer._word_ngrams"),
+]
 SRC = "mlinsights/mlmodel/sklearn_text.py"
 LEAN_TARGETS = ["MlVerif.Gen.C14", "MlVerif.Model.NGrams", "MlVerif.Lemmas.NGramsGen", "MlVerif.Lemmas.NGrams",
                 "MlVerif.Lemmas.NGramsOrder", "MlVerif.Properties.C14"]
